@@ -16,6 +16,7 @@ import (
 	"errors"
 	"fmt"
 	"os"
+	"regexp"
 	"strings"
 	"time"
 
@@ -65,9 +66,12 @@ func (a Addr) JID() (jid.JID, error) {
 }
 
 func negotiator(framing, lang string) xmpp.Negotiator {
-	cfg := func(*xmpp.Session, *xmpp.StreamConfig) xmpp.StreamConfig {
+	return negotiatorOf(framing, func(*xmpp.Session, *xmpp.StreamConfig) xmpp.StreamConfig {
 		return xmpp.StreamConfig{Lang: lang}
-	}
+	})
+}
+
+func negotiatorOf(framing string, cfg func(*xmpp.Session, *xmpp.StreamConfig) xmpp.StreamConfig) xmpp.Negotiator {
 	if framing == "ws" {
 		return websocket.Negotiator(cfg)
 	}
@@ -180,13 +184,18 @@ const emptyFeatures = "<stream:features xmlns:stream='" + nsStream + "'/>"
 // runEmit returns the list of differences between what the specification expects and what
 // was observed (empty = conforms), and the header bytes.
 func runEmit(v EmitVec) (diffs []string, hdr string) {
+	return runEmitWith(v, negotiator(v.In.Framing, str(v.In.Lang)), false)
+}
+
+// runEmitWith: the emitting session is negotiated by neg. complete: an initiating session is
+// answered (header, empty features) so that its negotiation runs to the end.
+func runEmitWith(v EmitVec, neg xmpp.Negotiator, complete bool) (diffs []string, hdr string) {
 	in := v.In
 	to, err1 := in.To.JID()
 	from, err2 := in.From.JID()
 	if err1 != nil || err2 != nil {
 		return []string{"SKIP: the address of the vector is not a valid JID"}, ""
 	}
-	lang := str(in.Lang)
 	state := xmpp.Secure
 	ns := "jabber:client"
 	if in.S2S {
@@ -207,14 +216,18 @@ func runEmit(v EmitVec) (diffs []string, hdr string) {
 			c1.FeedString(openTag(in.Framing, ns, from.String(), to.String(), ""))
 			return
 		}
+		if in.Role == "init" && reads == 1 && complete {
+			c1.FeedString(openTag(in.Framing, ns, from.String(), to.String(), "vt-1") + emptyFeatures)
+			return
+		}
 		c1.CloseIn()
 	}
 	var s1 *xmpp.Session
 	var p interface{}
 	if in.Role == "init" {
-		s1, _, p = session(true, to, from, c1, state, negotiator(in.Framing, lang))
+		s1, _, p = session(true, to, from, c1, state, neg)
 	} else {
-		s1, _, p = session(false, jid.JID{}, jid.JID{}, c1, state, negotiator(in.Framing, lang))
+		s1, _, p = session(false, jid.JID{}, jid.JID{}, c1, state, neg)
 	}
 	if p != nil {
 		diff("the emitting session panicked: %v", p)
@@ -356,6 +369,52 @@ func runEmit(v EmitVec) (diffs []string, hdr string) {
 		}
 	}
 	return diffs, hdr
+}
+
+// ---------------------------------------------------------------- part (a), one Negotiator for several sessions
+
+type SharedEmitVec struct {
+	In struct {
+		Mode string   `json:"mode"`
+		Sess []EmitIn `json:"sess"`
+	} `json:"in"`
+	Exp []EmitExp `json:"exp"`
+}
+
+var idRe = regexp.MustCompile(` id=['"]([^'"]*)['"]`)
+
+// runEmitShared negotiates the sessions of the scenario, one after the other, through ONE
+// Negotiator value. Mode "const": the configuration function always returns the same
+// language; "persession": it returns the scenario's language when the Negotiator is built
+// (no session yet) and a language of its own for every session it is asked about.
+func runEmitShared(v SharedEmitVec) (diffs []string, hdrs []string, ids []string) {
+	if len(v.In.Sess) == 0 {
+		return []string{"SKIP: empty scenario"}, nil, nil
+	}
+	first := v.In.Sess[0]
+	lang := str(first.Lang)
+	cur := 0
+	neg := negotiatorOf(first.Framing, func(s *xmpp.Session, _ *xmpp.StreamConfig) xmpp.StreamConfig {
+		if s == nil || v.In.Mode != "persession" {
+			return xmpp.StreamConfig{Lang: lang}
+		}
+		return xmpp.StreamConfig{Lang: fmt.Sprintf("x-session%d", cur+1)}
+	})
+	for i, in := range v.In.Sess {
+		cur = i
+		d, hdr := runEmitWith(EmitVec{In: in, Exp: v.Exp[i]}, neg, true)
+		if len(d) == 1 && strings.HasPrefix(d[0], "SKIP") {
+			return d, nil, nil
+		}
+		for _, t := range d {
+			diffs = append(diffs, fmt.Sprintf("session %d of %d negotiated through one Negotiator (%s configuration): %s", i+1, len(v.In.Sess), v.In.Mode, t))
+		}
+		hdrs = append(hdrs, hdr)
+		if m := idRe.FindStringSubmatch(hdr); m != nil {
+			ids = append(ids, m[1])
+		}
+	}
+	return diffs, hdrs, ids
 }
 
 // ---------------------------------------------------------------- part (b)
@@ -526,7 +585,7 @@ func lines(path string, f func([]byte)) {
 
 func main() {
 	if len(os.Args) < 3 {
-		fmt.Fprintln(os.Stderr, "usage: header emit|accept <vectors.ndjson>")
+		fmt.Fprintln(os.Stderr, "usage: header emit|emit-shared|accept <vectors.ndjson>")
 		os.Exit(2)
 	}
 	go func() {
@@ -564,6 +623,37 @@ func main() {
 		})
 		sum.Extra["skipped_invalid_jid"] = skipped
 		sum.Extra["with_special_characters"] = special
+	case "emit-shared":
+		sessions, sameID := 0, 0
+		lines(os.Args[2], func(b []byte) {
+			var v SharedEmitVec
+			if err := json.Unmarshal(b, &v); err != nil {
+				panic(err)
+			}
+			diffs, hdrs, ids := runEmitShared(v)
+			if len(diffs) == 1 && strings.HasPrefix(diffs[0], "SKIP") {
+				return
+			}
+			sum.Evaluations++
+			sessions += len(hdrs)
+			distinct[strings.Join(hdrs, "|")] = true
+			// (observation only: the property does not ask for distinct stream ids)
+			seen := map[string]bool{}
+			for _, id := range ids {
+				if seen[id] {
+					sameID++
+				}
+				seen[id] = true
+			}
+			if len(diffs) > 0 {
+				d2, _, _ := runEmitShared(v)
+				sum.Mismatches = append(sum.Mismatches, vt.Ev{"vector": v, "headers": hdrs, "diffs": diffs, "confirmed": len(d2) > 0})
+			} else if len(sum.Samples) < 1 && sum.Evaluations%53 == 7 {
+				sum.Samples = append(sum.Samples, vt.Ev{"vector": v.In, "headers": hdrs})
+			}
+		})
+		sum.Extra["sessions"] = sessions
+		sum.Extra["stream_ids_repeated_within_a_scenario"] = sameID
 	case "accept":
 		counts := map[string]int{}
 		lines(os.Args[2], func(b []byte) {
